@@ -14,6 +14,9 @@ pub enum Alpha {
     Full,
     /// ratio and chunk changes, reset, exact buffers: Px R Ra C Z
     Ratio,
+    /// Ratio plus two rejected calls (output one frame short, input one frame short): a call that
+    /// fails validation must not consume a pending ramp or move the position (C06)
+    RatioRej,
     /// Full plus the malformed-call menu (C13)
     FullBad,
     /// Full plus one malformed call of each category (histories with failed calls, C10)
@@ -153,6 +156,16 @@ pub fn deviations(cfg: &Cfg, alpha: Alpha, g: &Getters, _st: &State, last_layer:
         }
     }
     ops.push(Op::Z);
+    if alpha == Alpha::RatioRej {
+        // (a buffer cannot be one frame short of nothing: then the call would be a valid one)
+        if g.out_next >= 1 {
+            ops.push(Op::Bad(Bad::OutShort(0, 1)));
+        }
+        if g.in_next >= 1 {
+            ops.push(Op::Bad(Bad::InShort((cfg.channels - 1) as u8, 1)));
+        }
+        return ops;
+    }
     if alpha == Alpha::Ratio {
         return ops;
     }
@@ -181,6 +194,13 @@ pub fn deviations(cfg: &Cfg, alpha: Alpha, g: &Getters, _st: &State, last_layer:
         // end-of-stream call under a mask, the inactive channel supplied with frames / empty
         ops.push(Op::PPM(all & !1, 1, false));
         ops.push(Op::PPM(all & !2, 1, true));
+        if cfg.channels >= 4 {
+            // fragmented masks: every other channel (as many separate runs of active channels as
+            // the channel count allows)
+            let alt = 0x5555_5555u32 & all;
+            ops.push(Op::PM(alt, true));
+            ops.push(Op::PM(all & !alt, false));
+        }
     } else {
         ops.push(Op::PM(0, true));
         ops.push(Op::PM(1, false));
@@ -378,7 +398,17 @@ pub fn explore_sys(spec: &Spec, make: Factory, journal: Journal) -> Result<Outco
             if nd < spec.bound || (!spec.final_layer.is_empty() && (steps == 0 || !spec.final_layer_first_only)) {
                 let g = live.getters();
                 let devs = if nd < spec.bound {
-                    deviations(cfg, if nd == 0 { spec.alpha } else if nd == 1 { spec.alpha_deep } else { Alpha::Ratio }, &g, &st, nd + 1 >= spec.bound)
+                    let mut d = deviations(cfg, if nd == 0 { spec.alpha } else if nd == 1 { spec.alpha_deep } else { Alpha::Ratio }, &g, &st, nd + 1 >= spec.bound);
+                    // the property's own operations are tried in every explored state, whatever
+                    // alphabet the layer uses
+                    if steps == 0 || !spec.final_layer_first_only {
+                        for op in &spec.final_layer {
+                            if !d.contains(op) {
+                                d.push(*op);
+                            }
+                        }
+                    }
+                    d
                 } else {
                     spec.final_layer.clone()
                 };
